@@ -1,9 +1,98 @@
+/-
+BDS 4,5 meteorological hazard report: panic-freedom (C01), serialisation (C07) and physical
+ranges (C08) of `Bds45.read`, for every reader state (= every payload).
+Per-field facts are complete kernel enumerations of the field's code space; in particular the
+`unreachable!()` arm of `read_level` is not reachable with a 2-bit value.
+-/
 import Rs1090.Proofs.Decode.Wp
+import Rs1090.Proofs.Decode.Ser
+import Rs1090.Proofs.Decode.OkAnd
 import Rs1090.Model.Decode.Bds45
 namespace Rs1090.Model.Bds45
-open Rs1090 Rs1090.Model
+open Rs1090 Rs1090.Model Rs1090.Props.C13
 
-/-- STUB proof for the STUB reader (replaced together with the model) -/
-theorem read_noPanic : NoPanic read := by unfold read; exact noPanic_fail _
+/-! ### per-field facts -/
+
+/-- `read_level` never reaches `unreachable!()`; what it returns is a plain string -/
+theorem level_spec : ∀ st v, v < 2 ^ 2 →
+    (level st v).okAnd (optAll fun j => j.wf && j.inRange) = true := by
+  intro st
+  cases st <;> (refine enum 2 ?_; decide +kernel)
+
+/-- accepted temperature: `-80 ≤ q/4 ≤ 60` -/
+theorem temperature_spec : ∀ st sg v, v < 2 ^ 9 →
+    (temperature st sg v).okAnd (optAll fun q => decide (-80 * 4 ≤ q) && decide (q ≤ 60 * 4)) = true := by
+  intro st sg
+  cases st <;> cases sg <;> (refine enum 9 ?_; decide +kernel)
+
+theorem pressure_spec : ∀ st v, v < 2 ^ 11 → (pressure st v).okAnd (fun _ => true) = true := by
+  intro st
+  cases st <;> (refine enum 11 ?_; decide +kernel)
+
+/-- `value * 16` on u32 cannot overflow for a 12-bit value -/
+theorem height_spec : ∀ st v, v < 2 ^ 12 → (height st v).okAnd (fun _ => true) = true := by
+  intro st
+  cases st <;> (refine enum 12 ?_; decide +kernel)
+
+theorem readLevel_wp (Q : Option Json → Rd → Prop) (s : Rd)
+    (h : ∀ o s', optAll (fun j => j.wf && j.inRange) o = true → Q o s') : wp readLevel Q s := by
+  unfold readLevel
+  wp_run
+  apply wp_lift_okAnd (level_spec _ _ (by assumption)); intro o ho
+  exact h _ _ ho
+
+/-! ### the reader -/
+
+theorem read_good (s : Rd) : wp read (fun r _ => SerGood [] r ∧ RangeGood r) s := by
+  unfold read
+  wp_run
+  apply readLevel_wp; intro turb s1 hturb
+  wp_run
+  apply readLevel_wp; intro shear s2 hshear
+  wp_run
+  apply readLevel_wp; intro burst s3 hburst
+  wp_run
+  apply readLevel_wp; intro icing s4 hicing
+  wp_run
+  apply readLevel_wp; intro wake s5 hwake
+  wp_run
+  apply wp_lift_okAnd (temperature_spec _ _ _ (by assumption)); intro temp htemp
+  wp_run
+  apply wp_lift_okAnd (pressure_spec _ _ (by assumption)); intro pres _
+  wp_run
+  apply wp_lift_okAnd (height_spec _ _ (by assumption)); intro hgt _
+  wp_run
+  wp_if hres
+  · wp_run
+  · wp_run
+    constructor
+    · apply serGood_of
+      · keys_decide
+      · keys_decide
+      · fields_cases
+        · exact wf_getD_of _ hturb
+        · exact wf_getD_of _ hshear
+        · exact wf_getD_of _ hburst
+        · exact wf_getD_of _ hicing
+        · exact wf_getD_of _ hwake
+    · apply rangeGood_of
+      range_cases
+      · exact inRange_getD_of _ hturb
+      · exact inRange_getD_of _ hshear
+      · exact inRange_getD_of _ hburst
+      · exact inRange_getD_of _ hicing
+      · exact inRange_getD_of _ hwake
+      · exact holds_getD_map _ _ _ _ htemp (fun q hq => by
+          simp only [Bool.and_eq_true, decide_eq_true_eq] at hq
+          exact holds_range_jrat _ _ _ _ _ (by decide) (by omega) (by simp; omega))
+
+theorem read_noPanic : NoPanic read :=
+  fun s => wp_mono (read_good s) (fun _ _ _ => trivial)
+
+theorem read_serGood (s : Rd) : wp read (fun r _ => SerGood [] r) s :=
+  wp_mono (read_good s) (fun _ _ h => h.1)
+
+theorem read_rangeGood (s : Rd) : wp read (fun r _ => RangeGood r) s :=
+  wp_mono (read_good s) (fun _ _ h => h.2)
 
 end Rs1090.Model.Bds45
